@@ -71,3 +71,55 @@ pub open spec fn packed_chain(chain: Seq<Block>, idx: int, off: u64) -> bool {
 pub open spec fn first_covers(p: ReadPlan) -> bool {
     entry_ok(p.blk.mmap.file, p.blk.offset + p.start) && entry_end(p.blk.mmap.file, p.blk.offset + p.start) <= p.blk.offset + p.end
 }
+
+// ---- C01: the plan leaves no gap. Bytes of block i the cursor has not passed yet:
+pub open spec fn unread_in(chain: Seq<Block>, idx0: int, off0: u64, i: int) -> int {
+    if i == idx0 { if off0 < chain[i].used { chain[i].used - off0 } else { 0 } } else { chain[i].used as int }
+}
+pub open spec fn planned_at(plan: Seq<ReadPlan>, i: int) -> bool {
+    exists|k: int| 0 <= k < plan.len() && !(#[trigger] plan[k]).is_tail && plan[k].chain_idx == Some(i as usize)
+}
+/// every sealed block the planner stepped over either got a range or holds nothing unread
+pub open spec fn no_gap(plan: Seq<ReadPlan>, chain: Seq<Block>, idx0: int, off0: u64, upto: int) -> bool {
+    forall|i: int| idx0 <= i < upto && i < chain.len() ==> #[trigger] planned_at(plan, i) || unread_in(chain, idx0, off0, i) == 0
+}
+pub proof fn lemma_no_gap_push(plan: Seq<ReadPlan>, chain: Seq<Block>, idx0: int, off0: u64, upto: int, p: ReadPlan)
+    requires no_gap(plan, chain, idx0, off0, upto), !p.is_tail, p.chain_idx == Some(upto as usize), 0 <= upto < usize::MAX
+    ensures no_gap(plan.push(p), chain, idx0, off0, upto + 1)
+{
+    let q = plan.push(p);
+    assert forall|i: int| idx0 <= i < upto + 1 && i < chain.len() implies #[trigger] planned_at(q, i) || unread_in(chain, idx0, off0, i) == 0 by {
+        if i < upto {
+            if planned_at(plan, i) {
+                let k = choose|k: int| 0 <= k < plan.len() && !(#[trigger] plan[k]).is_tail && plan[k].chain_idx == Some(i as usize);
+                assert(q[k] == plan[k]);
+            }
+        } else {
+            assert(q[plan.len() as int] == p);
+        }
+    }
+}
+pub proof fn lemma_no_gap_skip(plan: Seq<ReadPlan>, chain: Seq<Block>, idx0: int, off0: u64, upto: int)
+    requires no_gap(plan, chain, idx0, off0, upto), upto < chain.len() ==> unread_in(chain, idx0, off0, upto) == 0
+    ensures no_gap(plan, chain, idx0, off0, upto + 1)
+{}
+/// requires-free form: stepping over block `upto` without planning it is only gap-free if nothing in it is unread
+pub proof fn lemma_no_gap_skip_if(plan: Seq<ReadPlan>, chain: Seq<Block>, idx0: int, off0: u64, upto: int)
+    ensures (no_gap(plan, chain, idx0, off0, upto) && (upto < chain.len() ==> unread_in(chain, idx0, off0, upto) == 0)) ==> no_gap(plan, chain, idx0, off0, upto + 1)
+{
+    if no_gap(plan, chain, idx0, off0, upto) && (upto < chain.len() ==> unread_in(chain, idx0, off0, upto) == 0) {
+        lemma_no_gap_skip(plan, chain, idx0, off0, upto);
+    }
+}
+pub proof fn lemma_no_gap_push_any(plan: Seq<ReadPlan>, chain: Seq<Block>, idx0: int, off0: u64, upto: int, p: ReadPlan)
+    requires no_gap(plan, chain, idx0, off0, upto)
+    ensures no_gap(plan.push(p), chain, idx0, off0, upto)
+{
+    let q = plan.push(p);
+    assert forall|i: int| idx0 <= i < upto && i < chain.len() implies #[trigger] planned_at(q, i) || unread_in(chain, idx0, off0, i) == 0 by {
+        if planned_at(plan, i) {
+            let k = choose|k: int| 0 <= k < plan.len() && !(#[trigger] plan[k]).is_tail && plan[k].chain_idx == Some(i as usize);
+            assert(q[k] == plan[k]);
+        }
+    }
+}
